@@ -428,3 +428,56 @@ def stream_element(ip, chain, elem):
         else:
             raise AnalysisIncomplete('adaptor %s is not element-wise' % name)
     return val, src
+
+
+_fresh = [0]
+
+
+def expand_stream(ip, v, depth=0):
+    """One generic element of a stream built from integer ranges by element-wise adaptors and flat_map:
+    -> (item value, [conditions under which it is yielded], [(element symbol, text of the range it runs over)]).
+    The closures are evaluated on fresh element symbols (events are recorded in ip.events as usual)."""
+    from ..tables import call_fn_value, opt_is_some, opt_payload
+    if depth > 6:
+        raise AnalysisIncomplete('stream nesting too deep')
+    fv = I.frozen(v)
+    ch, src = stream_chain(fv)
+    names = [n for n, _ in ch]
+    guards, sources = [], []
+    # source: a range
+    item = None
+    rest = list(ch)
+    if names and names[-1] == 'new' and 'RangeInclusive' in repr(fv):
+        lo, hi = src, ch[-1][1][0]
+        _fresh[0] += 1
+        item = RF.sym('elem%d' % _fresh[0])
+        sources.append((item, 'RangeInclusive::new(%r, %r)' % (as_rf(lo), as_rf(hi))))
+        rest = ch[:-1]
+    elif isinstance(src, I.St) and str(src.adt).endswith('ops::Range') and set(src.fields) >= {'start', 'end'}:
+        _fresh[0] += 1
+        item = RF.sym('elem%d' % _fresh[0])
+        sources.append((item, 'Range{start: %r, end: %r}' % (as_rf(src.fields['start']), as_rf(src.fields['end']))))
+    else:
+        raise AnalysisIncomplete('stream source is not an integer range: %s' % repr(src)[:80])
+    for name, args in reversed(rest):
+        if name in ('into_iter', 'collect', 'by_ref'):
+            continue
+        if name == 'map':
+            item = call_fn_value(ip, args[0], [item], '?')
+        elif name == 'filter':
+            c = call_fn_value(ip, args[0], [ip.ref_to(item)], 'bool')
+            if not isinstance(c, I.B):
+                raise AnalysisIncomplete('filter predicate is not a condition: %r' % (c,))
+            guards.append(c)
+        elif name == 'filter_map':
+            r = call_fn_value(ip, args[0], [item], '?')
+            guards.append(opt_is_some(r))
+            item = opt_payload(r, '?')
+        elif name in ('flat_map', 'flat_map_iter'):
+            inner = call_fn_value(ip, args[0], [item], '?')
+            item, g2, s2 = expand_stream(ip, inner, depth + 1)
+            guards.extend(g2)
+            sources.extend(s2)
+        else:
+            raise AnalysisIncomplete('adaptor %s is not modelled for range streams' % name)
+    return item, guards, sources
